@@ -178,7 +178,7 @@ def run(ck, facts, tier):
                 want_plain = Sym("solve", vkey(a_), vkey(b_))
                 sel = [v for c, v in ps if dict(c).get(vkey(Sym("bool", flag))) in (True, None) and (dict(c).get(vkey(Sym("bool", flag))) is not False)]
                 # the flag is a known constant: the evaluator takes the branch, leaving a single leaf
-                pick = [v for c, v in ps]
+                pick = [v for c, v in ps if not (isinstance(v, Sym) and v.tag[:1] == ("diverges",))]        # precondition asserts may abort: the returning path is judged
                 ok = len(pick) == 1 and vkey(pick[0]) == vkey(want_lsq if flag == "true" else want_plain)
                 ck.check(r3, key, ok, "with allow_lsq=%s the system solved is not %s" % (flag, "(A^T A, A^T b)" if flag == "true" else "(A, b)"), where,
                          detail=paths.fmt_paths(got)[:500], sample="solve(A^T A, A^T b)" if flag == "true" else "solve(A, b)")
